@@ -17,7 +17,8 @@ def sh(cmd, **kw):
 
 def demo():
     r = sh(f"/venv/bin/python {seed}/demo.py", timeout=1800)
-    return r.returncode, (r.stdout + r.stderr).strip().splitlines()[-3:]
+    lines = [l for l in r.stdout.splitlines() if "PROPERTY" in l]
+    return r.returncode, (lines or (r.stdout + r.stderr).strip().splitlines())[-2:]
 
 
 out = {"worktree": wt}
